@@ -17,6 +17,7 @@ Where today's code breaks the partition (Measles, Cholera: `exposed ∧ infected
 the `_counterexample` theorem exhibits it on the regenerated model and the `_partial` theorem states what does hold.
 -/
 import StarsimModel.Model.Compartments
+import StarsimModel.Lemmas.InfectionCount
 
 namespace StarsimModel.C13
 open StarsimModel.Compartments
@@ -278,5 +279,41 @@ theorem C13_infectious_not_susceptible :
     (∀ s : Gen.Hiv.Flags, Hiv.partition s = true → Gen.Hiv.infectious s = true → s.susceptible = false) ∧
     (∀ s : Gen.Syphilis.Flags, Syphilis.partition s = true → Gen.Syphilis.infectious s = true → s.susceptible = false) := by
   decide +kernel
+
+/-! ## Infection counts: cumulative infections = number of infection events -/
+section counts
+open InfectionCount
+
+/-- The diseases whose `set_prognoses` leaves `ti_infected` = the current step for every agent it is called on
+    (regenerated fact): for these the counting theorem below applies. -/
+theorem C13_infection_time_recorded :
+    Gen.Sir.infectionTimeIsNow = true ∧ Gen.Sis.infectionTimeIsNow = true ∧ Gen.Gonorrhea.infectionTimeIsNow = true ∧
+    Gen.Hiv.infectionTimeIsNow = true ∧ Gen.Syphilis.infectionTimeIsNow = true := by decide
+
+/-- TODAY'S CODE: Measles, Ebola and Cholera overwrite `ti_infected` with a future (fractional) time in `set_prognoses`,
+    so `count_nonzero(ti_infected == ti)` never counts an infection: `new_infections ≡ 0` (known finding). -/
+theorem C13_infection_time_counterexample :
+    Gen.Measles.infectionTimeIsNow = false ∧ Gen.Ebola.infectionTimeIsNow = false ∧ Gen.Cholera.infectionTimeIsNow = false := by decide
+
+/-- **Counting.** If every infection records the current step (`infect`), then for every run — any sequence of steps,
+    each with its own active population `pop` (births, deaths) and its own duplicate-free set `us ⊆ pop` of agents passed
+    to `set_prognoses` (`Infection.infect` de-duplicates), starting from any state whose recorded times are all earlier —
+    the recorded `new_infections` series is exactly the number of infection events per step, and `cum_infections[i]`
+    is the number of infection events up to and including step `i`. -/
+theorem C13_cum_infections (steps : List (List Nat × List Nat)) (m : TiMap) (t : Nat) (h : Before m t)
+    (hs : ∀ p ∈ steps, p.1.Nodup ∧ p.2.Nodup ∧ ∀ u ∈ p.2, u ∈ p.1) :
+    run m t steps = steps.map (fun p => p.2.length) ∧
+    ∀ (i : Nat) (hi : i < (cumulative (run m t steps)).length),
+      (cumulative (run m t steps))[i] = ((steps.map (fun p => p.2.length)).take (i + 1)).sum := by
+  have hr := run_eq_events steps m t h hs
+  refine ⟨hr, fun i hi => ?_⟩
+  rw [cumulative_getElem _ i hi, hr]
+
+/-- non-vacuity: two steps, a birth and a death in between, three events -/
+example : run (fun _ => none) 0 [([0, 1, 2], [1]), ([0, 2, 3], [0, 3])] = [1, 2] := by decide
+example : cumulative [1, 2, 0, 4] = [1, 3, 3, 7] := by decide
+/-- without the `infect`-records-now rule nothing is counted: a future time never equals the step -/
+example : newInfections (fun u => if u = 1 then some 7 else none) [0, 1, 2] 0 = 0 := by decide
+end counts
 
 end StarsimModel.C13
